@@ -66,6 +66,18 @@ CHECKS = {
   text="14 driver scenarios (2-3 goroutines, 1-2 encode / decode / query-decode / NewHash calls each on one shared codec, fresh or warm, incl. the package-level default; types forced to share sub-schemas, enums, recursion, a failing reflection, prefixed enum spellings, same-type pairs) are executed under every interleaving at scheduling points (thread start, call boundaries and every sync / atomic operation of lib/j5schema, lib/j5reflect, internal/codec, lib/j5codec, lib/id62, reached by rewriting their sync imports to a shim at check time) with <=3 preemptions (quick; <=2 for 3-thread / 4-call scenarios) or without bound (thorough). Oracles per execution: no data race (real -race runtime, hand-off invisible to it), no panic, no deadlock, every call's result equals its result on a fresh codec alone. Default schedule replayed twice for determinism; a racing schedule is replayed twice before it is reported.",
   note="trusted: Go race detector; sync operations outside the shimmed packages are not scheduling points; a free-running -race pass of the same bodies is reported as cross-check",
   design="3/C10"),
+ "C02": dict(
+  engine="E1",
+  technique=TECH_E1 + "; j5s programs enumerated by feature families, compiled by the real pipeline, compared with an independent reference compiler (structural contract diff)",
+  text="~1200 (quick) j5s programs from a Go program model: single-field matrix (22 field types x plain/array/map x 5 presence spellings, each alone in its file), numbering (0-6 fields in 11 kinds of holder incl. request/response/publish/reqres/upsert/entity data and events, implicit leading fields), nesting (inline types to depth 3 with/without name override, 5 leaf shapes), enums (0-3 options, explicit UNSPECIFIED, prefix override, top-level/inline), references (3 declaration kinds x 10 reference forms: same file, qualified, cross-file, import by short/full name, alias, 3-segment packages, sibling prefixes x plain/array/map x a second similarly named package imported with and without alias), services (5 verbs x 6 path-parameter patterns x response/empty/none x 3 basePath forms), topics, mixed multi-file packages, entities. For each: the program compiles and links, and the compiled files, packages, user/type imports, messages with nesting, fields (name, JSON name, number, type, type name, label, proto3-optional, oneof membership, map value type), enum values, services, methods, input/output types, HTTP verb and path, messaging role and topic name equal the reference compiler's contract exactly.",
+  note="reference compiler (harness/gj5s) written from README.md; identifier alphabet avoids digits/acronyms; declaration order and options not compared (C04/C12)",
+  design="3/C02"),
+ "C17": dict(
+  engine="E1",
+  technique=TECH_E1 + "; entity declarations crossed over 8 dimensions, compared with a reference expansion incl. annotations",
+  text="Every entity in the enumeration (6 name casings x 5 key sets x 3 data sets x 3 status sets x 3 event sets x 3 summary sets x 3 command sets x 4 query settings; all single and pairwise deviations from a default in quick, the small dimensions fully crossed in thorough) compiles, and the output equals the reference expansion: Keys/Data/Status/State/EventType/Event, query service with Get/List/Events (verbs, paths with primary keys in declaration order), command services, publish topic, one upsert topic per summary, all names derived from the entity name; plus annotations: same entity name and the right part on every component, primary-key markers and required-ness, tenant/foreign markers, flattened keys in State/Event, required wrapper fields, state_query / state_command service options and method roles, entity name on topics.",
+  note="shard keys not generated (undocumented path effect); 1 open known finding (adjacent capitals in the entity name)",
+  design="3/C17"),
 }
 
 PENDING = {
